@@ -9,7 +9,7 @@
     in any order/grouping/delay, ticks, retrievals = back-pressure), for every
     number of CUs and dispatchers. *)
 From Coq Require Import List NArith Bool Arith Lia Permutation.
-From VCp Require Import Resource ResourceProofs Dispatcher DispatcherProofs.
+From VCp Require Import Resource ResourceProofs Dispatcher DispatcherSteps DispatcherProofs.
 Import ListNotations.
 Open Scope nat_scope.
 
@@ -148,25 +148,37 @@ Print Assumptions panics_only_on_protocol_violation.
 
 (** * Layer 2 *)
 
-(** Every work-group of a launch is mapped exactly once, in grid order: when
-    the LaunchKernelRsp of a launch is sent, the MapWGReqs sent for it carry
-    exactly the work-groups of its grid (key and demand), each once, each with
-    the CU and the locations of a reservation that succeeded; while a launch is
-    in progress the MapWGReqs sent so far are a duplicate-free prefix of the grid. *)
+(** Every work-group of a launch is mapped exactly once.  When the
+    LaunchKernelRsp of a launch is sent, the MapWGReqs sent for it carry exactly
+    the work-groups of its grid (key and demand), each once (a permutation of the
+    grid; for round-robin and greedy even in grid order), each with the CU and the
+    locations of a reservation that succeeded; while a launch is in progress the
+    MapWGReqs sent so far are a duplicate-free part (for round-robin and greedy: a
+    prefix) of the grid.  Holds for the three placement algorithms. *)
 Theorem wg_mapped_exactly_once : forall c cus n evs,
   let s := Dispatcher.run (init_cp c cus n) evs in
   crashed (sh s) = false ->
   (forall f, In f (g_hist (sh s)) ->
-     map kd_of_sent (f_sent f) = grid_of (f_launch f) /\ Forall mr_ok (f_sent f)) /\
+     Permutation (grid_of (f_launch f)) (map kd_of_sent (f_sent f)) /\
+     (is_partition (c_alg c) = false -> map kd_of_sent (f_sent f) = grid_of (f_launch f)) /\
+     Forall mr_ok (f_sent f)) /\
   (forall d l, In d (disps s) -> dispatching d = Some l ->
-     Forall mr_ok (g_sent d) /\ exists rest, grid_of l = map kd_of_sent (g_sent d) ++ rest).
+     Forall mr_ok (g_sent d) /\
+     exists rest, Permutation (grid_of l) (map kd_of_sent (g_sent d) ++ rest) /\
+                  (is_partition (c_alg c) = false -> grid_of l = map kd_of_sent (g_sent d) ++ rest)).
 Proof.
   intros c cus n evs s Hc.
-  pose proof (DispatcherProofs.run_inv evs _ (init_cp_inv c cus n) Hc) as HI. fold s in HI.
-  destruct HI as [HD HH _ _]. split.
-  - intros f Hf. rewrite Forall_forall in HH. destruct (HH f Hf) as [? [? _]]. auto.
+  pose proof (DispatcherProofs.run_inv c cus n evs Hc) as HI. fold s in HI.
+  pose proof (run_cfg c cus n evs Hc) as Hcfg. fold s in Hcfg.
+  destruct HI as [HD HH _ _]. rewrite Hcfg in *. split.
+  - intros f Hf. rewrite Forall_forall in HH. destruct (HH f Hf) as [Hg [Hm _]].
+    split; [apply (gridrel_perm _ _ _ Hg)|]. split; auto.
+    intros Hp. unfold gridrel in Hg. rewrite Hp in Hg. auto.
   - intros d l Hd El. rewrite Forall_forall in HD. destruct (HD d Hd) as [_ [Hs [_ Hm]]].
-    rewrite El in Hm. destruct Hm as [Hg _]. split; auto. eexists. exact Hg.
+    rewrite El in Hm. destruct Hm as [Hg _]. split; auto.
+    exists (map pl_kd (opt_list (g_cur d)) ++ alg_pending (c_alg c) d).
+    unfold placed in Hg. rewrite <- app_assoc in Hg.
+    split; [apply (gridrel_perm _ _ _ Hg)|]. intros Hp. unfold gridrel in Hg. rewrite Hp in Hg. exact Hg.
 Qed.
 Print Assumptions wg_mapped_exactly_once.
 
@@ -186,11 +198,11 @@ Theorem launch_rsp_exactly_once_after_all : forall c cus n evs,
      length (f_sent f) = length (lr_wgs (f_launch f))).
 Proof.
   intros c cus n evs s Hc.
-  pose proof (DispatcherProofs.run_inv evs _ (init_cp_inv c cus n) Hc) as HI. fold s in HI.
+  pose proof (DispatcherProofs.run_inv c cus n evs Hc) as HI. fold s in HI.
   destruct HI as [_ HH HS HR]. split; auto. split; auto.
   intros f Hf. rewrite Forall_forall in HH. destruct (HH f Hf) as [Hg [_ [? ?]]].
   split; auto. split; auto.
-  apply (f_equal (@length _)) in Hg. rewrite map_length in Hg. rewrite Hg.
+  apply gridrel_perm, Permutation_length in Hg. rewrite map_length in Hg. rewrite <- Hg.
   apply enum_from_length.
 Qed.
 Print Assumptions launch_rsp_exactly_once_after_all.
